@@ -7,6 +7,7 @@ from .. import paths
 from ..core import FUNC, call_attr, calls_in, const, dotted, is_const, kwarg, norm, text, walk_local
 
 EXPLANATION = [
+    'C06.match-arms: in the match statements of the anchored modules no class arm comes after an arm for one of its base classes (class patterns are isinstance tests in order: the later arm would never run).',
     'C06.derived-index: a controller / host / device / link table that is filled with objects taken out of another table of the same class (a lookup cache) loses its entry in every method that removes an entry from the source table.',
     'C06.shared-state: no class of the anchored modules keeps per-instance state in an object shared by all instances (an empty mutable container or synchronisation object as class-level default that is read through self and not rebound in __init__, or as a dataclass field default); process-wide registries are listed by name.',
     'C06.lmp-pending: Controller.send_lmp_packet returns, on every path, a future created by that very call and registers it under (peer, opcode): a second request to the same peer can never be resolved by the answer to an earlier one.',
@@ -347,7 +348,13 @@ def derived_index_rule(ctx):
     derived_index(ctx, 'C06.derived-index', ['bumble.controller.Controller', 'bumble.host.Host', 'bumble.device.Device', 'bumble.link.LocalLink'])
 
 
+def match_arms_rule(ctx):
+    from ..generic_rules import match_arm_shadowing
+    match_arm_shadowing(ctx, 'C06.match-arms', ['bumble.controller', 'bumble.link'])
+
+
 RULES = [
+    ('C06.match-arms', match_arms_rule),
     ('C06.derived-index', derived_index_rule),
     ('C06.shared-state', shared_state_rule),
     ('C06.lmp-pending', lmp_pending),
